@@ -1383,3 +1383,83 @@ Proof.
                       (2%nat, {| t_spec := new_tx RO; t_lock := true |})] |}.
   eexists. eexists. split; [vm_compute; reflexivity|]. split; vm_compute; reflexivity.
 Qed.
+
+(* ------------------------------------------------------------------------------------- *)
+(* 10. the checker accepts every history of the model (so a REJECT of a recorded history    *)
+(*     means the implementation left the model, whatever the oracle says)                   *)
+(* ------------------------------------------------------------------------------------- *)
+
+Lemma nodupb_complete : forall l, NoDup l -> nodupb l = true.
+Proof.
+  induction l as [|x l IH]; intros H; [reflexivity|]. inversion H; subst. cbn [nodupb].
+  rewrite IH by assumption. destruct (existsb (Nat.eqb x) l) eqn:E; [|reflexivity].
+  apply existsb_eqb_in in E. contradiction.
+Qed.
+
+Lemma seq_ok_b_complete : forall l, seq_ok l -> seq_ok_b l = true.
+Proof.
+  induction l as [|e l IH]; intros H; [reflexivity|]. cbn [seq_ok] in H. destruct H as (H1 & H2 & H3).
+  cbn [seq_ok_b]. rewrite IH by exact H3. apply N.leb_le in H1. rewrite H1. cbn.
+  rewrite andb_true_r. apply forallb_forall. intros e' He'. apply N.ltb_lt. apply H2. exact He'.
+Qed.
+
+Lemma rt_check_intro : forall h order,
+  (forall l1 t l2 t', order = l1 ++ t :: l2 -> In t' l2 -> fin_before_b h t' t = false) ->
+  rt_check h order = true.
+Proof.
+  induction order as [|t r IH]; intros H; [reflexivity|]. cbn [rt_check]. apply andb_true_intro. split.
+  - apply forallb_forall. intros t' Ht'. rewrite (H [] t r t' eq_refl Ht'). reflexivity.
+  - apply IH. intros l1 t0 l2 t' E Ht'. apply (H (t :: l1) t0 l2 t'); [rewrite E; reflexivity|exact Ht'].
+Qed.
+
+Lemma begin_order_split : forall h l1 t l2, begin_order h = l1 ++ t :: l2 ->
+  exists h1 e h2, h = h1 ++ e :: h2 /\ h_tx e = t /\ begin_order h2 = l2.
+Proof.
+  induction h as [|e h IH]; intros l1 t l2 H; cbn [begin_order] in H; [destruct l1; discriminate|].
+  destruct (h_call e) eqn:Ec;
+    try (destruct (IH _ _ _ H) as (h1 & e' & h2 & A & B & C); exists (e :: h1), e', h2; rewrite A; auto).
+  destruct l1 as [|a l1]; cbn [app] in H; inversion H; subst.
+  - exists [], e, h. auto.
+  - destruct (IH _ _ _ H2) as (h1 & e' & h2 & A & B & C). exists (e :: h1), e', h2. rewrite A. auto.
+Qed.
+
+Lemma inc_app_lt : forall h1 e h2 e', inc (h1 ++ e :: h2) -> In e' h2 -> h_inv e < h_inv e'.
+Proof.
+  induction h1 as [|a h1 IH]; intros e h2 e' H He'; cbn [app inc] in H.
+  - destruct H as [H _]. apply H. exact He'.
+  - destruct H as [_ H]. eapply IH; eauto.
+Qed.
+
+Lemma rt_check_inc : forall h,
+  inc h -> (forall e, In e h -> h_ret e = h_inv e) -> rt_check h (begin_order h) = true.
+Proof.
+  intros h Hi Hst. apply rt_check_intro. intros l1 t l2 t' E Ht'.
+  destruct (fin_before_b h t' t) eqn:F; [|reflexivity]. exfalso.
+  apply fin_before_b_sound in F.
+  destruct (begin_order_split _ _ _ _ E) as (h1 & e & h2 & A & B & C).
+  rewrite <- C in Ht'. destruct (begin_order_ev _ _ Ht') as (e' & m & A' & B' & _).
+  assert (Hin : In e h) by (rewrite A; apply in_mid; left; reflexivity).
+  assert (Hin' : In e' h) by (rewrite A; apply in_mid; right; right; exact A').
+  pose proof (F e' e Hin' Hin B' B) as Hlt. rewrite (Hst _ Hin') in Hlt.
+  rewrite A in Hi. pose proof (inc_app_lt _ _ _ _ Hi A'). lia.
+Qed.
+
+Theorem ser_check_complete_lts : forall S0 tr s,
+  steps (init S0) tr s -> ser_check S0 (hist_of tr) = true.
+Proof.
+  intros S0 tr s H. destruct (lts_serial_witness _ _ _ H) as (A & B & _ & D & E).
+  unfold ser_check. rewrite (nodupb_complete _ A), D.
+  assert (Hst : forall e, In e (hist_of tr) -> h_ret e = h_inv e).
+  { intros e He. apply (hist_from_stamps tr 0). exact He. }
+  assert (Hrt : rt_check (hist_of tr) (begin_order (hist_of tr)) = true)
+    by (apply rt_check_inc; [apply hist_from_inc|exact Hst]).
+  rewrite Hrt.
+  assert (Hm : forallb (fun e => existsb (Nat.eqb (h_tx e)) (begin_order (hist_of tr))) (hist_of tr) = true).
+  { apply forallb_forall. intros e He. apply existsb_eqb_in. apply B. apply in_map. exact He. }
+  assert (Hw : wf_check (hist_of tr) = true).
+  { unfold wf_check. apply forallb_forall. intros t _. apply seq_ok_b_complete. apply E. }
+  rewrite Hm, Hw. reflexivity.
+Qed.
+
+Example ex_complete : ser_check [] (hist_of ex_trace) = true.
+Proof. destruct ex_trace_runs as (s & H & _). exact (ser_check_complete_lts _ _ _ H). Qed.
